@@ -149,9 +149,15 @@ def make_pool(seed):
         'm.lua': b'-- main %d\nsrc_m=%d\nfunction _update()\n src_m+=1\nend\n' % (r[6], 1 + r[7]),
         'prev': b'prev_out=%d\nprint("o")\n' % (1 + r[8]),
     }
+    # "twin" pools: source a.p8 holds exactly the data OUT already has and its code (like m.lua's) is OUT's code
+    # spelled differently (quote style), so a build from them changes nothing but the spelling of the Lua section
+    twin = seed[0] % 4 == 0
+    if twin:
+        codes['a.p8'] = codes['prev'].replace(b'"o"', b"'o'")
+        codes['m.lua'] = codes['prev'].replace(b'"o"', b'[[o]]')
     pool = {}
     for cid, name in enumerate(CART_SOURCES + ('prev',)):
-        mem, modes = _mem(seed, cid)
+        mem, modes = _mem(seed, len(CART_SOURCES) if (twin and name == 'a.p8') else cid)
         version = 5 + r[9 + cid] % 37
         pool[name] = {'mem': mem, 'modes': modes, 'version': version, 'sec': _sections(mem, codes[name])}
     pool['m.lua'] = {'sec': {'lua': codes['m.lua']}, 'data': codes['m.lua']}
@@ -172,10 +178,13 @@ def make_pool(seed):
                 for n in CART_SOURCES + ('prev',)] + [e[sec]]
         if sec == 'lua':
             vals.append(codes['m.lua'])
+        if twin and sec != 'lua':
+            vals = vals[1:]          # a.p8 deliberately equals prev
         if len(set(vals)) != len(vals):
             raise HarnessError('pool sections for %s are not pairwise distinct' % sec)
     if len(_pool_cache) >= 3:
         _pool_cache.clear()
+    pool['twin'] = twin
     _pool_cache[seed] = pool
     return pool
 
@@ -455,9 +464,19 @@ def part_grid(ctx):
         seed = ctx.derive('single', i // 31).to_bytes(8, 'big')[:3]
         do_case(ctx, seed, ok, sel, extra=('single',))
 
+    # twin pools (source = what OUT already holds, Lua spelled differently): OUT must still get the source's text
+    twins = [(ok, sel) for ok in OUT_KINDS for sel in (
+        {'lua': 'a.p8'}, {'lua': 'm.lua'}, {'lua': 'a.p8', 'gfx': 'a.p8', 'sfx': 'a.p8'},
+        {'lua': 'm.lua', 'map': 'a.p8', 'gff': 'a.p8', 'music': 'a.p8', 'gfx': 'a.p8', 'sfx': 'a.p8'})]
+    for i, (ok, sel) in enumerate(twins):
+        if i % ctx.nshards != ctx.shard:
+            continue
+        seed = bytes([4 * (ctx.derive('twin', i) % 64)]) + ctx.derive('twinpool', i // 7).to_bytes(8, 'big')[:2]
+        do_case(ctx, seed, ok, sel, extra=('twin_pool',))
+
     def body(raw):
         seed, ok, sel = decode_cfg(raw)
-        do_case(ctx, seed, ok, sel, raw=raw, extra=('drawn',))
+        do_case(ctx, seed, ok, sel, raw=raw, extra=('drawn',) + (('twin_pool',) if seed[0] % 4 == 0 else ()))
     ctx.hyp('grid', st.binary(min_size=16, max_size=16), body, max_examples=28 if ctx.quick else 120)
 
     if not ctx.quick:
@@ -618,7 +637,7 @@ def vacuity(total, tier):
     msgs = []
     need = ['out_' + k for k in OUT_KINDS] + ['err_' + k for k in ERR_KINDS]
     need += ['label_kept_png', 'label_kept_p8', 'label_empty_png', 'mixed_sources', 'lua_from_luafile',
-             'err_out_existing', 'err_out_absent']
+             'err_out_existing', 'err_out_absent', 'twin_pool']
     for sec in SECTIONS:
         need += ['%s_%s' % (sec, k) for k in ('from_p8', 'from_png', 'empty', 'unspecified')]
         need.append('err_conflict_' + sec)
